@@ -1767,8 +1767,12 @@ impl Monitor {
                             continue;
                         }
                         let Some(name) = names.get(*rid as usize) else { continue };
-                        // scenario descriptors label index i with "i"
-                        let expected = idxs.iter().map(|(i, _, _)| i.to_string()).collect::<Vec<_>>().join(",");
+                        // the label of an index, from the scenario's own description of the worker:
+                        // ranges and groups label index i with "i" (a range may start at 1), a
+                        // "list" resource names position i dev<7 - 2i>
+                        let kind = sys.sc.workers.get(si).and_then(|w| w.resources.iter().find(|r| r.name == *name)).map(|r| r.kind.as_str()).unwrap_or("range");
+                        let label = |i: u32| if kind == "list" { format!("dev{}", 7 - i as i32 * 2) } else { i.to_string() };
+                        let expected = idxs.iter().map(|(i, _, _)| label(*i)).collect::<Vec<_>>().join(",");
                         let var: String = format!(
                             "HQ_RESOURCE_VALUES_{}",
                             name.chars().map(|c| if c.is_ascii_alphanumeric() { c } else { '_' }).collect::<String>()
